@@ -12,6 +12,13 @@
        forall (p : program) (v : value) n,
          eval_program mods n p = Ret v _ ->
          run (compile p) = v     (after erasing tuple ids to (name, labels))
+
+     normalize_preserves_eval (NOT ATTEMPTED): Simplify.v (C17's model of simplify.rs) works on
+       Ast.v, whose patterns and types are an opaque payload; the evaluator needs them structured
+       and has its own AST (lang/Lang.v), so `eval (normalize_blocks p) = eval p` cannot even be
+       stated between the two files without a translation.  What the check does instead: every
+       compared program is compiled by the real compiler, i.e. AFTER the real normalize_blocks,
+       while the evaluator runs the un-normalised parser output.
 *)
 From Coq Require Import ZArith List Bool.
 From Quiver Require Import lang.Lang lang.LangProofs.
@@ -103,3 +110,12 @@ Theorem C02_bare_binder_always_succeeds : forall n c e x v,
   do_match n c e (MIdentifier x) v = Ret (vok, (x, v) :: e) st0.
 Proof. exact bare_binder_always_succeeds. Qed.
 Print Assumptions C02_bare_binder_always_succeeds.
+
+(* the names a successful match adds to the scope are static binders of the pattern (for
+   patterns without `*`, whose binders depend on the value, and whose or-alternatives bind
+   names of the first alternative, as the compiler demands) *)
+Theorem C02_match_binds_only_binders : forall n c e p v e' w,
+  wf_pat p -> do_match n c e p v = Ret (vok, e') w ->
+  exists d, e' = d ++ e /\ incl (map fst d) (binders p).
+Proof. exact match_binds_only_binders. Qed.
+Print Assumptions C02_match_binds_only_binders.
